@@ -266,7 +266,10 @@ func (h *Handler) SendMessageElement(ctx context.Context, s *xmpp.Session, paylo
 		msg.ID = attr.RandomID()
 	}
 
-	c := make(chan struct{})
+	// The channel is buffered so that the handler, which removes the entry before
+	// signaling, never blocks the serve loop (or writes to a channel that a
+	// canceled sender has given up on) no matter when the sender stops waiting.
+	c := make(chan struct{}, 1)
 	h.m.Lock()
 	h.sent[msg.ID] = c
 	h.m.Unlock()
@@ -288,7 +291,6 @@ func (h *Handler) SendMessageElement(ctx context.Context, s *xmpp.Session, paylo
 		h.m.Lock()
 		delete(h.sent, msg.ID)
 		h.m.Unlock()
-		close(c)
 		return ctx.Err()
 	}
 }
